@@ -36,7 +36,37 @@ def main():
         return 2
 
 
+def kill_workers():
+    """joblib/loky keeps idle worker processes (which hold our stdout) for minutes: end them with the check"""
+    try:
+        from joblib.externals.loky import get_reusable_executor
+
+        get_reusable_executor().shutdown(wait=False, kill_workers=True)
+    except Exception:
+        pass
+    try:
+        import multiprocessing
+
+        for c in multiprocessing.active_children():
+            c.kill()
+    except Exception:
+        pass
+    try:
+        import signal
+        import subprocess
+
+        out = subprocess.run(["pgrep", "-P", str(os.getpid())], capture_output=True, text=True).stdout.split()
+        for pid in out:
+            try:
+                os.kill(int(pid), signal.SIGKILL)
+            except Exception:
+                pass
+    except Exception:
+        pass
+
+
 if __name__ == "__main__":
     rc = main()
     sys.stdout.flush()
+    kill_workers()
     os._exit(rc)
